@@ -22,6 +22,8 @@ necessary to account for:
     may also differ.
 """
 
+import copy
+
 
 def get_qdk_gates():
     """Map gate name of the abstract format to the equivalent gate name used in
@@ -85,6 +87,8 @@ def translate_c_to_qsharp(source_circuit, operation="MyQsharpOperation", save_me
             for i, c in enumerate(gate.control):
                 control_string += f'qreg[{c}]]' if i == num_controls - 1 else f'qreg[{c}], '
             if num_controls > 1 and gate.name == 'CNOT':
+                # Rename a copy: the gates of the source circuit must not be modified
+                gate = copy.copy(gate)
                 gate.name = 'CX'
 
         if gate.name in {"H", "X", "Y", "Z", "S", "T"}:
